@@ -203,6 +203,11 @@ def wf_moves(tr):
                 ok = (a, b) in WF_MOVES or (rerun and (a, b) in WF_RERUN_MOVES)
                 if desc[0] == 'op' and desc[1] == 'resume' and a == 'PAUSED' and ('RUNNING', b) in WF_MOVES:
                     ok = True     # two compare-and-swaps in the resume transaction: PAUSED->RUNNING->verdict
+                if rerun and a in ('ERROR', 'CANCELLED') and ('RUNNING', b) in WF_MOVES:
+                    # two compare-and-swaps in the rerun / skip transaction: ERROR->RUNNING (the explicit rerun) and,
+                    # when skipping the last failed task leaves nothing to run, RUNNING->verdict by the inline
+                    # completion check; the committed snapshot shows only ERROR->verdict
+                    ok = True
                 # creation: a fresh execution appears already RUNNING (IDLE->RUNNING in one tx)
                 if w['ord'] not in prev:
                     ok = b in ('RUNNING', 'IDLE') or (('RUNNING', b) in WF_MOVES)
@@ -216,12 +221,15 @@ def task_success_final(tr):
     """C03: a task that reached SUCCESS never changes state again."""
     bad = []
     done = {}
+    rerun_seen = False
     for desc, s in tr.events:
+        if desc[0] == 'op' and desc[1] in ('rerun', 'skip'):
+            rerun_seen = True
         if s is None:
             continue
         for t in s['tasks']:
             if done.get(t['ord']) and t['state'] != 'SUCCESS':
-                bad.append({'task': t['name'], 'to': t['state'], 'event': desc})
+                bad.append({'task': t['name'], 'to': t['state'], 'event': desc, 'after_rerun': rerun_seen})
             if t['state'] == 'SUCCESS':
                 done[t['ord']] = True
     return bad
